@@ -159,7 +159,10 @@ pub fn build(c: &RootCase) -> (Result<Vec<u8>, String>, RootModel) {
     for i in (1..order.len()).rev() {
         order.swap(i, r.below(i as u64 + 1) as usize);
     }
-    let mut b = RootBuilder::new(version);
+    // One case in four creates the builder for another version and settles the real one with
+    // `set_version` just before `build` (decided by the case's seed, so that a replay repeats it)
+    let created_as = if c.seed % 4 == 1 { version_of(((c.seed >> 8) % 4 + 1) as u8) } else { version };
+    let mut b = RootBuilder::new(created_as);
     let mut model = RootModel { blocks: BTreeMap::new(), files: Vec::new(), total: 0, named: 0, version };
     for (i, fdid) in order.iter().enumerate() {
         let mut path = format!("{}/File_{i}_{:x}.{}", DIRS[r.below(DIRS.len() as u64) as usize], r.below(0xFFFF), EXTS[r.below(EXTS.len() as u64) as usize]);
@@ -220,6 +223,9 @@ pub fn build(c: &RootCase) -> (Result<Vec<u8>, String>, RootModel) {
     }
     for v in model.blocks.values_mut() {
         v.sort_by_key(|r| r.fdid);
+    }
+    if created_as != version {
+        b.set_version(version);
     }
     (b.build().map_err(|e| e.to_string()), model)
 }
